@@ -269,6 +269,9 @@ class RungeKuttaIntegrator(TableauIntegrator, abc.ABC):
         return __jac
 
     def step(self, rhs, initial_time, initial_state, constants, timestep):
+        if self.is_implicit and not D.ar_numpy.all(D.ar_numpy.isfinite(self.stage_values)):
+            # a diverged stage solve must not seed the next one
+            self.stage_values = D.ar_numpy.zeros_like(self.stage_values)
         # Initial guess from assuming method is explicit #
         _, intermediate_dstate, intermediate_rhs = components.rk_methods.compute_step(
             rhs,
@@ -404,7 +407,7 @@ class ExplicitSymplecticIntegrator(TableauIntegrator):
 
     def step(self, rhs, initial_time, initial_state, constants, timestep):
         current_time = D.ar_numpy.copy(initial_time)
-        self.dState *= 0.0
+        self.dState[...] = 0.0
 
         for stage in range(D.ar_numpy.shape(self.tableau_intermediate)[0]):
             if stage == 0:
